@@ -451,6 +451,8 @@ func runC19(c *Ctx) {
 	c.Clause("C19.5 Stream.Read marks the trailer section as consumed whether or not parsing it succeeds; DATA and HEADERS after trailers are errors")
 	c.Clause("C19.6 in the request and response writers no pseudo-header emission is reachable from a regular-field emission")
 	c.Clause("C19.7 the response writer tests the Trailer: prefix on the key as set by the handler, not on the lower-cased name")
+	c.Clause("C19.8 parseHeaders does not use the emptiness of a stored value as its not-seen-yet marker (duplicate pseudo-headers, Content-Length)")
+	c.Clause("C19.9 the request writer classifies a request as Extended CONNECT only for method CONNECT and a non-empty protocol, the condition the parser uses")
 	c.NotCovered("httpguts predicates themselves; semantic equality of decoded fields")
 
 	c.rule("C19.1", func() { c19Parse(c) })
@@ -460,6 +462,8 @@ func runC19(c *Ctx) {
 	c.rule("C19.5", func() { c19TrailerOnce(c) })
 	c.rule("C19.6", func() { c19PseudoFirst(c) })
 	c.rule("C19.7", func() { c19TrailerPrefixBeforeLower(c) })
+	c.rule("C19.8", func() { c19NoEmptinessAsSeenMarker(c) })
+	c.rule("C19.9", func() { c19ExtendedConnectAgreement(c) })
 }
 
 // callsParam: call of the function-typed parameter with the given name.
@@ -572,70 +576,55 @@ func c19Parse(c *Ctx) {
 		}
 		return hasTrue && hasFalse && EdgeImplies(ifi, s, BoolTrue(func(v ssa.Value) bool { return v == p }), true)
 	}}, "a pseudo-header after a regular field is an error")
-	// (b) duplicate: a φ whose edges are `hdr.X != ""` comparisons; passed on its false edge
-	hdrT := c.named(h3, "header")
-	isDupPhi := func(v ssa.Value) bool {
-		p, ok := v.(*ssa.Phi)
-		if !ok || len(p.Edges) < 6 {
+	// (b) duplicate: the next field is read only past the false edge of a test of a per-pseudo-header "seen" marker
+	// (an element of a local bool array / map), and the marker is set on the way. What the marker must NOT be — the
+	// emptiness of the stored value — is rule C19.8.
+	isSeenAddr := func(a ssa.Value) bool {
+		ia, ok := a.(*ssa.IndexAddr)
+		if !ok {
 			return false
 		}
-		n := 0
-		for _, e := range p.Edges {
-			bo, ok := e.(*ssa.BinOp)
-			if !ok || bo.Op != token.NEQ {
-				continue
+		et := derefType(ia.X.Type())
+		switch t := et.Underlying().(type) {
+		case *types.Array:
+			return types.Identical(t.Elem(), types.Typ[types.Bool])
+		case *types.Slice:
+			return types.Identical(t.Elem(), types.Typ[types.Bool])
+		}
+		return false
+	}
+	isSeenLoad := func(v ssa.Value) bool {
+		switch x := v.(type) {
+		case *ssa.UnOp:
+			return x.Op == token.MUL && isSeenAddr(x.X)
+		case *ssa.Lookup:
+			if m, ok := x.X.Type().Underlying().(*types.Map); ok {
+				return types.Identical(m.Elem(), types.Typ[types.Bool])
 			}
-			if s, ok := constString(bo.Y); !ok || s != "" {
-				continue
-			}
-			if f, _ := loadedField(bo.X); f != nil {
-				if st, ok := hdrT.Type().Underlying().(*types.Struct); ok {
-					for k := 0; k < st.NumFields(); k++ {
-						if st.Field(k) == f {
-							n++
-						}
-					}
+		case *ssa.Extract:
+			if lk, ok := x.Tuple.(*ssa.Lookup); ok {
+				if m, ok := lk.X.Type().Underlying().(*types.Map); ok {
+					return types.Identical(m.Elem(), types.Typ[types.Bool]) && x.Index == 0
 				}
 			}
 		}
-		return n >= 6
+		return false
 	}
 	c.cut(R, "pseudo:duplicates rejected", &Cut{Fn: ph, StartBlocks: sb, Target: OrIP(next, isReturnNilErrLast), Edge: func(ifi *ssa.If, s int) bool {
 		v := condCore(ifi.Cond)
-		return isDupPhi(v) && EdgeImplies(ifi, s, BoolTrue(func(x ssa.Value) bool { return x == v }), true)
-	}}, "each pseudo-header may appear once (the previous value must be empty)")
-	// the duplicate test reads the field BEFORE it is overwritten: each `hdr.X != ""` comparison precedes the store to hdr.X
-	eachInstr(ph, func(i ssa.Instruction) {
-		st, ok := i.(*ssa.Store)
-		if !ok {
-			return
+		return isSeenLoad(v) && EdgeImplies(ifi, s, BoolTrue(func(x ssa.Value) bool { return x == v }), true)
+	}}, "each pseudo-header may appear once: the next field is read only on the not-seen-before edge of a per-field marker")
+	marksSeen := func(i ssa.Instruction) bool {
+		switch x := i.(type) {
+		case *ssa.Store:
+			return isSeenAddr(x.Addr) && isConstBool(x.Val, true)
+		case *ssa.MapUpdate:
+			return isConstBool(x.Value, true)
 		}
-		f := fieldOfAddress(st.Addr)
-		if f == nil {
-			return
-		}
-		stt, _ := hdrT.Type().Underlying().(*types.Struct)
-		isHdr := false
-		for k := 0; stt != nil && k < stt.NumFields(); k++ {
-			if stt.Field(k) == f && f.Type() == types.Typ[types.String] {
-				isHdr = true
-			}
-		}
-		if !isHdr {
-			return
-		}
-		// in the same block an earlier comparison of the same field with ""
-		okOrder := false
-		for _, x := range st.Block().Instrs {
-			if x == i {
-				break
-			}
-			if bo, ok := x.(*ssa.BinOp); ok && bo.Op == token.NEQ && Load(f)(bo.X) {
-				okOrder = true
-			}
-		}
-		c.Check(okOrder, R, "pseudo:duplicate test reads "+f.Name()+" before overwriting it", c.P.InstrPos(i), "the old value is compared before the new one is stored")
-	})
+		return false
+	}
+	c.cut(R, "pseudo:occurrence recorded", &Cut{Fn: ph, StartBlocks: sb, Target: OrIP(next, isReturnNilErrLast), Barrier: marksSeen},
+		"a pseudo-header that was accepted is marked as seen before the next field is read")
 	// (c) kind: request side rejects response pseudo-headers and vice versa — two tests on the isRequest parameter
 	c.cut(R, "pseudo:kind checked against isRequest", &Cut{Fn: ph, StartBlocks: sb, Target: OrIP(next, isReturnNilErrLast), Edge: func(ifi *ssa.If, s int) bool {
 		return EdgeImplies(ifi, s, BoolTrue(ParamV("isRequest")), false) || EdgeImplies(ifi, s, BoolTrue(ParamV("isRequest")), true)
